@@ -16,7 +16,8 @@ CONFIG = dict(
           "instance with additions (three sets)} bounded-exhaustive up to the tier's length plus seeded random "
           "histories of length 30; additions name a new module (vp_sink.K) and new members of already listed "
           "modules (collections.Counter, argparse.Action).  After every step each probe global is loaded "
-          "through pickle.loads (when the environment is active) and through a fresh unpickler instance "
+          "through pickle.loads / _pickle.load (against the current activation's additions while one is active; when none is, "
+          "a still-mediating function must not permit anything outside BASE) and through a fresh unpickler instance "
           "without additions; outcomes are compared with the two-variable model (BASE, additions of the "
           "current activation / of that instance); a deep snapshot of ML_ALLOWLIST and the MLAllowlist static "
           "analysis' answer for a fixed pickle are compared with their values at import.  A case is one "
@@ -29,7 +30,7 @@ CONFIG = dict(
     min_nontrivial={"quick": 1500, "thorough": 50000},
     nshards={"quick": 8, "thorough": 16},
     timeout={"quick": 600, "thorough": 3600},
-    required_counters=("steps", "probes", "snapshots_compared", "static_answers_compared"),
+    required_counters=("steps", "probes", "inactive_states_probed", "snapshots_compared", "static_answers_compared"),
 )
 
 ADDSETS = {
@@ -148,6 +149,24 @@ def run_history(ctx, mods, base, static0, hist):
                                       f"environment active with additions {current}: {g} is {got}/{got2}, model says {want}",
                                       dict(w, steps=list(steps), probe=g))
                         return
+            if current is None:
+                # no activation is current: if something still mediates the module functions (a probe that no
+                # activation ever allowed is blocked), it must not be carrying anybody's additions
+                outs = {g: (outcome(lambda: pickle.loads(data), U), outcome(lambda: _pickle.load(io.BytesIO(data)), U))
+                        for g, data in PROBES.items()}
+                agg.count("probes", 2 * len(PROBES))
+                agg.count("inactive_states_probed")
+                for k in (0, 1):
+                    if any(o[k] == "blocked" for o in outs.values()):
+                        agg.count("mediated_while_inactive(C12)")
+                        leaked = sorted(g for g, o in outs.items() if o[k] == "allowed" and not allowed_by([], g))
+                        if leaked:
+                            agg.violation("deactivated-additions-in-force",
+                                          f"no activation is current, yet {('pickle.loads', '_pickle.load')[k]} still blocks "
+                                          f"unlisted globals while permitting {leaked}: additions of a replaced or "
+                                          f"deactivated activation remain in force",
+                                          dict(w, steps=list(steps), leaked=leaked))
+                            return
             agg.count("snapshots_compared")
             if ml.ML_ALLOWLIST != base:
                 extra = {m: sorted(set(v) - set(base.get(m, {}))) for m, v in ml.ML_ALLOWLIST.items()
